@@ -449,7 +449,9 @@ SPK = "some(speak_op)"
 AGENT_TOKENS = ("ite(is_dict(dget(dialog_bundle, 'agent', {})) and is_dict(dget(dget(dialog_bundle, 'agent', {}), 'caps', {})) and "
                 "dyn_int_ok(dget(dget(dget(dialog_bundle, 'agent', {}), 'caps', {}), 'tokens', 256)), "
                 "dyn_int(dget(dget(dget(dialog_bundle, 'agent', {}), 'caps', {}), 'tokens', 256)), 256)")
-SPEAK_CAP_SET = "(not is_none(speak_op) and " + SPK + "._cls == 'SpeakOp' and " + SPK + ".max_tokens != 0)"
+# "the utterance never exceeds its token budget ... for all token budgets": the budget of a turn that has a Speak op is
+# that op's max_tokens -- 0 included (the planner emits SpeakOp(max_tokens=cfg.t3.tokens), and 0 is a legal value)
+SPEAK_CAP_SET = "(not is_none(speak_op) and " + SPK + "._cls == 'SpeakOp')"
 # type invariant of plan ops (Literal `kind` annotations of the three dataclasses)
 KIND_MATCHES_CLASS = ("forall(i, 0 <= i < len(plan.ops), (plan.ops[i]._cls == 'SpeakOp') == (plan.ops[i].kind == 'Speak') and "
                       "(plan.ops[i]._cls == 'EditGraphOp') == (plan.ops[i].kind == 'EditGraph') and "
@@ -462,7 +464,7 @@ R.contract(
     requires=[("dialog-bundle-as-assembled", "wf_dialog_bundle(dialog_bundle)"), ("op-kind-matches-class", KIND_MATCHES_CLASS)],
     ensures=[
         ("utterance-within-resolved-budget", "ws_tokens(result[0]) <= max(max_tokens, 0)"),
-        # the budget the function resolves: the first Speak op's max_tokens when it is set (non-zero), else the agent cap
+        # the budget the function resolves: the first Speak op's max_tokens when there is a Speak op, else the agent cap
         ("budget-is-speak-op-cap", "implies(" + SPEAK_CAP_SET + ", max_tokens == " + SPK + ".max_tokens)"),
         ("budget-falls-back-to-agent-cap", "implies(not " + SPEAK_CAP_SET + ", max_tokens == " + AGENT_TOKENS + ")"),
         ("speak-op-is-first-speak",
